@@ -142,6 +142,9 @@ def run(ctx, idx):
     problems = []
     if not r.layer_reduces:
         problems.append("no layer-axis mean is taken at all")
+    elif meths == {"sum"} and all(any(isinstance(q_, ast.BinOp) and isinstance(q_.op, ast.Div) and any(n_ is x_ for x_ in ast.walk(q_.left)) and isinstance(n_, ast.Call) and isinstance(n_.func, ast.Attribute)
+                                        and K.src(q_.right) == "len(%s)" % K.src(n_.func.value) for q_ in ast.walk(fi.node)) for n_, sel_, m_, fk_ in r.layer_reduces):
+        pass  # x.sum(axis=0) / len(x): the mean written out
     elif meths != {"mean"}:
         problems.append("the selected layers are combined by %s, not by their mean" % "/".join(sorted(meths - {"mean"})))
     for br, want in (("Truest", "TopK"), ("Falsest", "BottomK")):
@@ -160,6 +163,8 @@ def run(ctx, idx):
         elif sel[1] != k:
             problems.append("the %s branch selects %s layers instead of NumberToConsider itself" % (br, sel[1]))
     line = fi.node.lineno
+    if problems and any("not sorted along the layer axis" in p_ for p_ in problems) and any(isinstance(c_, ast.Call) and isinstance(c_.func, ast.Attribute) and c_.func.attr in ("partition", "argpartition") for c_ in ast.walk(fi.node)):
+        raise AnalysisError("C06.c: FuzzySelectedUnion orders its layer stack only partially (partition): which layers the slices select depends on the pivot and is outside what this rule reads")
     if problems:
         ctx.violate("C06.c", con, d.module.rel, seen.get("Truest", seen.get("Falsest", (None, None, fi.node)))[2].lineno, "; ".join(problems))
     else:
